@@ -1,4 +1,6 @@
 import Driver.C04
+import Driver.C12
+import Driver.C09
 import Driver.C02
 import Driver.C01
 /-! `asldrv <mode>`: one request per input line, one answer per output line. -/
@@ -11,6 +13,8 @@ partial def loop (h : IO.FS.Stream) (out : IO.FS.Stream) (f : String → String)
   loop h out f
 
 def modes : List (String × (String → String)) := [
+  ("c12", C12.handle),
+  ("c09", C09.handle),
   ("c04", C04.handle),
   ("pfile", C04.handleParse),
   ("c02", C02.handle),
